@@ -17,7 +17,7 @@ claimed = {
    note="assumed: strings.ToLower is byte-wise on ASCII, strings.Index/IndexByte/HasPrefix, net.ParseIP character set"),
  "C05": dict(sec="7 C05",
    text="Proof that accept / store decisions equal the documented rule on the lower-cased domain for every configuration, that a sender is refused exactly when a reject-origin pattern matches (Spec_wmatch), that RCPT is accepted only if a hook allowed it or policy accepts it and the recipient limit is not reached (and the limit is an invariant of the session), and that SliceContains / SliceToLower are correct for all slices.",
-   note="assumed: MatchWithWildcards == Spec_wmatch is a TRUSTED contract until its DP proof is in (listed in evidence); config.Process lower-casing proved via SliceToLower only"),
+   note="assumed: MatchWithWildcards == Spec_wmatch is a TRUSTED contract (its dynamic-programming body is not proved); in its place a BOUNDED stand-in runs on every check: the real function against the executable specification for all patterns of length <= 5 over {a,b,.,*,?} and all inputs of length <= 5 over {a,b,.} (1.4 million pairs, exhaustive within the bound, reported under coverage.bounded, never counted as proved); config.Process lower-casing proved via SliceToLower only"),
  "C06": dict(sec="7 C06",
    text="Proof (loop-free handler, all sizes and limits) that a DATA block longer than MaxMessageBytes is never passed to Deliver and that the session continues in READY with an empty envelope.",
    note="assumed: ReadDotBytes returns the block it read; bytes.Buffer.Bytes returns the slice it was built from"),
